@@ -245,3 +245,35 @@ Definition pool_step (p : gpool) (o : pool_op) : gpool :=
 Definition pool_run (p : gpool) (ops : list pool_op) : gpool := fold_left pool_step ops p.
 
 Definition uri_id (p : gpool) (u : nat) : option nat := index_of u (uris p) 0.
+
+(** ---- RangeTokenMap::getRange: the two slots of a keyword and the lazily published complement ----------------- *)
+(** A keyword of the token map has a positive slot (fRange) and a complement slot (fNRange).  Tokens are kept abstract
+    ([T] with a complement operation).  [get_range] follows RangeTokenMap::getRange: return the requested slot if it is
+    filled; otherwise (under the map's mutex, so sequentially -- T17_lockset) re-check, and when the complement is asked
+    for and the positive token exists, build its complement and publish it IN THE COMPLEMENT SLOT. *)
+Section GetRange.
+  Variable T : Type.
+  Variable compl : T -> T.
+
+  Record slots := mkSlots { s_pos : option T; s_neg : option T }.
+
+  Definition get_range (e : slots) (complement : bool) : slots * option T :=
+    match (if complement then s_neg e else s_pos e) with
+    | Some t => (e, Some t)
+    | None =>
+        if complement then
+          match s_pos e with
+          | Some p => let t := compl p in (mkSlots (s_pos e) (Some t), Some t)
+          | None => (e, None)
+          end
+        else (e, None)
+    end.
+
+  (** a sequence of requests (any threads, any order: the slow path is serialised by the mutex) *)
+  Definition run_requests (e : slots) (reqs : list bool) : slots :=
+    fold_left (fun e c => fst (get_range e c)) reqs e.
+
+  (** the complement slot, when filled, holds the complement of the positive slot *)
+  Definition slots_wf (e : slots) : Prop :=
+    forall p n, s_pos e = Some p -> s_neg e = Some n -> n = compl p.
+End GetRange.
